@@ -50,6 +50,24 @@ Theorem C04_custom_handler_sees_cleared : forall v r x n,
 Proof. exact custom_handler_sees_cleared. Qed.
 Print Assumptions C04_custom_handler_sees_cleared.
 
+(* ... INCLUDING a cached rendering of the media (an early render_body() by a middleware or the
+   responder): only status and headers of the response survive into the handler, and the
+   response the handler leaves can never send a stale rendering. *)
+Theorem C04_reset_discards_all : forall v r1 r2 x,
+  r_status r1 = r_status r2 -> r_headers r1 = r_headers r2 ->
+  handle_exception v r1 x = handle_exception v r2 x.
+Proof. exact reset_discards_all. Qed.
+Print Assumptions C04_reset_discards_all.
+
+Theorem C04_no_stale_rendering : forall v r x, cache_ok (snd (handle_exception v r x)).
+Proof. exact no_stale_rendering. Qed.
+Print Assumptions C04_no_stale_rendering.
+
+Theorem C04_rendered_media_is_current : forall mf r b,
+  cache_ok r -> render mf r = inl (BMedia b) -> r_media r = Some b.
+Proof. exact rendered_media_is_current. Qed.
+Print Assumptions C04_rendered_media_is_current.
+
 (* An HTTP error / HTTP status raised by the handler is rendered in turn. *)
 Theorem C04_handler_raised_error_rendered : forall v r x n e,
   find_error_handler (v_reg v) (x_mro x) = Some (HCustom n) ->
@@ -359,10 +377,10 @@ Example C04_example_default_error :
               v_ncfg := {| n_xml := true; n_preferred := Some MEDIA_JSON; n_accept := lit "*/*";
                            n_resolvable := [MEDIA_JSON] |} |} in
   let r0 := {| r_status := 200; r_headers := []; r_text := Some (lit "partial"); r_data := None;
-               r_media := None |} in
+               r_media := None; r_rendered := None |} in
   handle_exception v r0 ex_exc =
   (Handled, Some HHTTPError,
    {| r_status := 404;
       r_headers := [(lit "x-err", lit "1"); (s_content_type, MEDIA_JSON); (s_vary, s_Accept)];
-      r_text := None; r_data := Some (DJson (to_dict ex_err)); r_media := None |}).
+      r_text := None; r_data := Some (DJson (to_dict ex_err)); r_media := None; r_rendered := None |}).
 Proof. vm_compute. reflexivity. Qed.
